@@ -205,7 +205,7 @@ def gen_nonfinite_valid(rng):
 INVALID_KINDS = [
     "zero_first", "zero_later", "zero_later", "zero_last", "equal_pair", "decreasing", "start_equal", "start_after",
     "nan_inside", "nan_first", "nan_single", "nan_start", "nan_start", "inf_inside", "neginf_first", "inf_twice",
-    "empty", "scalar_zero", "both", "neg_zero_later", "start_pinf", "expr_empty", "file_empty",
+    "empty", "scalar_zero", "both", "neg_zero_later", "start_pinf", "expr_empty", "file_empty", "empty_str",
 ]
 
 
@@ -261,11 +261,15 @@ def gen_invalid(rng, kind=None):
         ts, form = [], "expr_numpy"
     elif kind == "file_empty":
         ts, form = [], "file_npy"
+    elif kind == "empty_str":
+        ts, form = [], "seq"
     elif kind == "scalar_zero":
         ts, form = [rng.choice([0.0, -0.0])], "scalar"
     c = base_case(rng, start, ts, form=form, plan_len=max(len(ts), 1))
     if kind == "scalar_zero":
         c["src"] = {"form": rng.choice(["scalar", "scalar_int"]), "values": [tx(0.0)]}
+    if kind == "empty_str":
+        c["src"] = {"form": "empty_str", "values": []}
     if kind == "both":
         c["src"] = {"form": "both", "values": [tx(t) for t in ts]}
     c["kind"] = kind
@@ -317,6 +321,8 @@ def src_values(src):
     """the list of times the case's source denotes (numpy expressions are evaluated by numpy: contract)"""
     if src["form"] == "default":
         return [1.0]
+    if src["form"] == "empty_str":
+        return []
     if src["form"] == "expr_raw":
         import numpy
 
@@ -340,6 +346,8 @@ def readout_kwargs(src, tmpdir):
     vals = [fx(s) for s in src.get("values", [])]
     if form == "default":
         return {}
+    if form == "empty_str":
+        return {"times": ""}
     if form == "both":
         return {"times": vals, "times_from_file": "whatever.npy"}
     if form == "seq":
@@ -382,12 +390,29 @@ def lean_src(src):
     kind = {
         "default": "default", "both": "both", "seq": "seq", "tuple": "seq", "scalar": "scalar", "scalar_int": "scalar",
         "bool": "scalar", "expr_list": "expr", "expr_numpy": "expr", "expr_raw": "expr", "file_npy": "file",
-        "file_npy2d": "file", "file_txt": "file", "file_csv": "file",
+        "file_npy2d": "file", "file_txt": "file", "file_csv": "file", "empty_str": "seq",
+    }[form]
+    return {"kind": kind, "v": vals}
+
+
+def lean_src_yaml(src):
+    """the `times:` / `times_from_file:` entries of the YAML route, for the model's `srcOfYaml`"""
+    form = src["form"]
+    vals = [xj(v) for v in src_values(src)] if form not in ("default", "empty_str") else []
+    kind = {
+        "default": "yaml_absent", "both": "yaml_both", "seq": "yaml_seq", "tuple": "yaml_seq", "scalar": "yaml_num",
+        "scalar_int": "yaml_num", "bool": "yaml_num", "expr_list": "yaml_str", "expr_numpy": "yaml_str", "expr_raw": "yaml_str",
+        "empty_str": "yaml_empty_str", "file_npy": "yaml_file", "file_npy2d": "yaml_file", "file_txt": "yaml_file",
+        "file_csv": "yaml_file",
     }[form]
     return {"kind": kind, "v": vals}
 
 
 def lean_request(case):
+    if "sweep" in case:
+        return {"op": "sweep", "start": xj(fx(case["start"])), "nd": case["nd"], "times": [xj(v) for v in src_values(case["src"])],
+                "values": [xj(fx(v)) for v in case["sweep"]],
+                "prior": case.get("_prior_seen") or [None, None, None, 0, None, None], "plan": case["plan"]}
     ops = []
     for op in case["ops"]:
         if op[0] == "setTimes":
@@ -397,7 +422,7 @@ def lean_request(case):
         else:
             ops.append(["setNd", bool(op[1])])
     return {
-        "op": "session", "src": lean_src(case["src"]), "start": xj(fx(case["start"])), "nd": case["nd"], "ops": ops,
+        "op": "session", "src": lean_src_yaml(case["src"]) if case.get("route") == "yaml" else lean_src(case["src"]), "start": xj(fx(case["start"])), "nd": case["nd"], "ops": ops,
         # the prior content is whatever the history left: the model takes the tokens the harness *observed*
         # just before the run (filled in by run_impl); theorem `prior_never_leaks` says it is irrelevant
         "prior": case.get("_prior_seen") or [None, None, None, 0, None, None],
@@ -438,7 +463,18 @@ def run_other_mode(case, readout, det, tmpdir):
     n = len(readout.times)
     probes.C02["plan"] = list(case["plan"][:n]) * 400  # the writer counts its calls: same plan for every run of the mode
     mode = case["mode"]
-    if mode in ("observation-seq", "observation-dask"):
+    if mode == "observation-dask-times":
+        # the scanned parameter IS the readout time (only the dask path honours the key `observation.readout.times`):
+        # one one-step run per value, each with the configured start time and mode
+        import dask
+
+        obs = Observation(parameters=[ParameterValues(key="observation.readout.times", values=[fx(v) for v in case["sweep"]])],
+                          readout=readout, with_dask=True)
+        with dask.config.set(scheduler="synchronous"):
+            res = pyxel.run_mode(mode=obs, detector=det, pipeline=pipeline(), with_inherited_coords=True)
+            if hasattr(res, "load"):
+                res.load()
+    elif mode in ("observation-seq", "observation-dask"):
         import dask
 
         obs = Observation(parameters=[ParameterValues(key="detector.environment.temperature", values=[101.0, 102.0])],
@@ -479,6 +515,65 @@ def run_other_mode(case, readout, det, tmpdir):
     return {"runs": runs, "op_ok": []}
 
 
+def run_yaml(case, tmpdir):
+    """the same session through the YAML entry point: `pyxel.configuration.loads` builds exposure (readout section),
+    detector and pipeline; then `pyxel.run_mode`.  -> same result shape as `run_impl`"""
+    import probes
+    import pyxel
+    import yaml
+    from pyxel.configuration import loads
+
+    kw = readout_kwargs(case["src"], tmpdir)
+    ro = {}
+    if "times" in kw:
+        v = kw["times"]
+        ro["times"] = list(v) if isinstance(v, tuple) else v
+    if "times_from_file" in kw:
+        ro["times_from_file"] = kw["times_from_file"]
+    if case.get("yaml_null_times") and "times" not in ro:
+        ro["times"] = None
+    ro["start_time"] = fx(case["start"])
+    ro["non_destructive"] = bool(case["nd"])
+    pipe = {
+        "scene_generation": [{"name": "begin", "func": "probes.c02_probe", "enabled": True, "arguments": {"where": "begin"}}],
+        "charge_collection": [{"name": "writer", "func": "probes.c02_writer", "enabled": True}],
+        "data_processing": [{"name": "end", "func": "probes.c02_probe", "enabled": True, "arguments": {"where": "end"}}],
+    }
+    doc = {
+        "exposure": {"readout": ro},
+        "ccd_detector": {
+            "geometry": {"row": 2, "col": 3, "total_thickness": 10.0, "pixel_vert_size": 10.0, "pixel_horz_size": 10.0},
+            "environment": {"temperature": 100.0},
+            "characteristics": {"quantum_efficiency": 0.5, "charge_to_volt_conversion": 1e-6, "pre_amplification": 10.0,
+                                "adc_bit_resolution": 16, "adc_voltage_range": [0.0, 5.0], "full_well_capacity": 1000},
+        },
+        "pipeline": pipe,
+    }
+    probes.reset()
+    probes.C02["calls"], probes.C02["plan"] = 0, case["plan"]
+    try:
+        cfg = loads(yaml.safe_dump(doc, sort_keys=False))
+    except Exception as e:  # noqa: BLE001
+        case["_prior_seen"] = [None, None, None, 0, None, None]
+        return {"error": common.err_kind(e), "stage": "construct", "calls": len(probes.LOG), "msg": str(e)[:200], "op_ok": []}
+    det = cfg.detector
+    probes.c02_apply(det, [["set", b, k] for b, k in zip(BUCKETS, case["prior"]["tokens"])])
+    case["_prior_seen"] = probes.c02_state(det)
+    out = {"op_ok": []}
+    try:
+        pyxel.run_mode(mode=cfg.exposure, detector=det, pipeline=cfg.pipeline)
+    except Exception as e:  # noqa: BLE001
+        out.update({"error": common.err_kind(e), "stage": "run", "calls": len(probes.LOG), "msg": str(e)[:200]})
+        return out
+    log = list(probes.LOG)
+    if len(log) % 2:
+        out.update({"error": "Other:odd-log", "stage": "run", "calls": len(log)})
+        return out
+    obs, rp_same = obs_from_log(log)
+    out.update({"obs": obs, "rp_same": rp_same})
+    return out
+
+
 def run_impl(case, det=None, shared_tmp=None):
     """-> {"error": kind, "stage": s, "calls": n, "op_ok": [...]} or {"obs": [...], "op_ok": [...], "rp_same": b};
     a history case ({"history": [sub-case …]}) -> {"history": [result of each run, all on ONE detector object]}"""
@@ -498,6 +593,8 @@ def run_impl(case, det=None, shared_tmp=None):
             shutil.rmtree(htmp, ignore_errors=True)
     tmpdir = shared_tmp or tempfile.mkdtemp(prefix="c02_")
     try:
+        if case.get("route") == "yaml":
+            return run_yaml(case, tmpdir)
         reused = det is not None
         det = det or pyx.make_detector(case.get("detector", "CCD"), 2, 3)
         prior = {"tokens": [], "earlier": None, "tokens_after_earlier": False} if reused else case["prior"]
@@ -598,6 +695,22 @@ def property_predicate(case, impl):
             why = property_predicate(sub, si)
             if why:
                 return (why[0], f"run #{k} of {len(case['history'])} on one detector object: {why[1]}")
+        return None
+    if "runs" in impl and "sweep" in case:  # Observation scanning the readout time: each run has its own one-time schedule
+        wanted = [fx(v) for v in case["sweep"]]
+        seen = set()
+        for k, run in enumerate(impl["runs"]):
+            t_obs = xf(run["obs"][0][0]) if run["obs"] else None
+            if t_obs not in wanted:
+                return ("C02:clock", f"{case['mode']}, pipeline execution #{k}: models saw time {t_obs}, the scanned readout times are {wanted}")
+            seen.add(t_obs)
+            sub = dict(case, src={"form": "scalar", "values": [tx(t_obs)]})
+            why = property_predicate_one(sub, {"obs": run["obs"], "rp_same": run["rp_same"], "op_ok": []})
+            if why:
+                return (why[0], f"{case['mode']} (scanned readout time {t_obs}, configured start time {fx(case['start'])}), "
+                                f"pipeline execution #{k}: {why[1]}")
+        if seen != set(wanted):
+            return ("C02:runs-per-time", f"{case['mode']}: scanned readout times {wanted}, executed only {sorted(seen)}")
         return None
     if "runs" in impl:  # Observation / Calibration: every execution of the pipeline is judged like an exposure
         for k, run in enumerate(impl["runs"]):
@@ -813,6 +926,26 @@ def gen_file_rewrite(rng):
     return {"history": subs, "prior": gen_prior(rng), "detector": rng.choice(["CCD", "CMOS", "MKID"]), "file_rewrite": form}
 
 
+def gen_sweep(rng):
+    """dask Observation whose scanned parameter is the readout time, with a start time that is (mostly) not 0"""
+    vals = sorted(rng.sample(range(2, 200), rng.choice([2, 3, 4])))
+    vals = [v / 4.0 for v in vals]
+    start = rng.choice([0.5, 0.25, -3.0, 0.125, 0.0, vals[0] - 0.375])
+    c = base_case(rng, start, [vals[-1] + 1.0], nd=rng.random() < 0.5, form="seq", plan_len=1)
+    c["mode"], c["detector"], c["sweep"] = "observation-dask-times", "CCD", [tx(v) for v in vals]
+    c["prior"]["earlier"] = None
+    return c
+
+
+def to_yaml_route(rng, c):
+    """the same case through the YAML entry point (no setter calls, no earlier run; tuples are YAML lists)"""
+    c = dict(c, route="yaml", ops=[], detector="CCD")
+    c["prior"] = dict(c["prior"], earlier=None)
+    if c["src"]["form"] == "default" and rng.random() < 0.5:
+        c["yaml_null_times"] = True  # `times:` left empty = null = not given
+    return c
+
+
 def build_cases(rng, tier):
     k = 1 if tier == "quick" else 12
     cases = []
@@ -844,6 +977,19 @@ def build_cases(rng, tier):
         c["nd"] = rng.random() < 0.35
         c["prior"]["tokens"][3] = special_tok(rng, "pixel") if rng.random() < 0.6 else c["prior"]["tokens"][3]
         cases.append(("nonfinite-content", c))
+    for _ in range(8 * k):
+        cases.append(("modes", gen_sweep(rng)))
+    # YAML route: valid schedules of every form, every falsy `times:` value, and the other ways of being invalid
+    for _ in range(24 * k):
+        cases.append(("yaml", to_yaml_route(rng, gen_valid(rng))))
+    for kind in ("scalar_zero", "scalar_zero", "scalar_zero", "empty", "empty", "empty_str", "empty_str", "both", "zero_first",
+                 "zero_later", "nan_start", "start_equal", "decreasing", "expr_empty", "file_empty"):
+        for _ in range(k):
+            cases.append(("yaml", to_yaml_route(rng, gen_invalid(rng, kind))))
+    for _ in range(12 * k):
+        cases.append(("yaml", to_yaml_route(rng, gen_invalid(rng))))
+    for _ in range(2 * k):
+        cases.append(("invalid", gen_invalid(rng, "empty_str")))
     for mode, cnt in (("observation-seq", 10), ("observation-dask", 8), ("calibration", 3)):
         for _ in range(cnt * k):
             cases.append(("modes", gen_modes(rng, mode)))
@@ -907,14 +1053,22 @@ def body(ck: common.Check):
         if "kind" in case:
             ck.count("invalid-kind=" + case["kind"])
         why = property_predicate(case, impl)
-        replay = {"case": public, "impl": impl, "model": ans["model"]}
+        replay = {"case": public, "impl": impl, "model": ans.get("model", ans.get("runs"))}
         if whole is not None:
             wc, k = whole
-            replay = {"case": strip_private(wc), "run": k, "impl": impl, "model": ans["model"]}
+            replay = {"case": strip_private(wc), "run": k, "impl": impl, "model": ans.get("model")}
             if why is not None:
                 why = (why[0], f"run #{k} of {len(wc['history'])} on one detector object: {why[1]}")
         if why is not None:
             ck.violation(why[0], why[1], replay)
+        if "runs" in impl and "sweep" in case:
+            by_val = {json.dumps(v): m for v, m in zip(lean_request(case)["values"], ans["runs"])}
+            for run in impl["runs"]:
+                m = by_val.get(json.dumps(run["obs"][0][0])) if run["obs"] else None
+                if m is None or {"obs": run["obs"]} != m:
+                    ck.disagreement(stream, public, {"obs": run["obs"]}, m)
+                    break
+            continue
         if "runs" in impl:
             for run in impl["runs"]:
                 if {"obs": run["obs"]} != ans["model"]:
@@ -940,6 +1094,8 @@ def body(ck: common.Check):
                "(zero first/later/last, equal, decreasing, start ≥ first, NaN anywhere, inf inside, empty, both sources), setter "
                "calls after construction; destructive / non-destructive; random per-step writes to all six buckets (set, "
                "accumulate, clear, charge clusters); prior content: direct fill and/or an earlier run on the same detector; "
+               "the same sessions through the YAML entry point (every form, every falsy `times:` value 0 / 0.0 / -0.0 / [] / \"\", null = default); "
+               "dask Observation scanning `observation.readout.times` with a non-zero start time; "
                "the same sessions through Observation (sequential and dask path) and Calibration on a detector that already holds pixel "
                "charge, every pipeline execution inside the mode judged like an exposure; nanosecond-scale, 2^-30 s-scale and nearly "
                "regular schedules (steps equal up to 1e-9…1e-5 relative); a stream of arbitrary (non-dyadic) doubles whose time steps / absolute times are compared bit for bit with the "
